@@ -26,6 +26,11 @@ Theorem c15_deleted_file_unavailable : forall s gn n g,
   find_folder gn (folders s) = Some g -> find_name n (live g) = None -> step s (DeleteFile gn n) = (s, Failure).
 Proof. exact deleted_file_unavailable. Qed.
 
+(* ... also while the node is not ON, when nothing else progresses *)
+Theorem c15_counters_zero_at_tick_start_while_off : forall s, ncreate (fst (step s TickOff)) = 0 /\ ndelete (fst (step s TickOff)) = 0 /\
+  folders (fst (step s TickOff)) = folders s /\ dfolders (fst (step s TickOff)) = dfolders s.
+Proof. exact counters_zero_at_tick_start_off. Qed.
+
 Theorem c15_counters_zero_at_tick_start : forall s, ncreate (fst (step s Tick)) = 0 /\ ndelete (fst (step s Tick)) = 0.
 Proof. exact counters_zero_at_tick_start. Qed.
 
